@@ -1,6 +1,6 @@
 (* Model of pub/util.go. *)
 From Coq Require Import String List Bool Arith.
-From Verif Require Import Base.ListX Base.Json Base.Free Vocab.Tables Pub.Events Pub.Calls Pub.Value.
+From Verif Require Import Base.ListX Base.Json Base.Free Vocab.Tables Pub.Events Pub.Calls Pub.Value Pub.EffectSpec.
 From Verif Require Import Gen.PubShipped.
 Import ListNotations.
 Open Scope string_scope.
@@ -290,27 +290,12 @@ Definition add_loop (op_ids : list string) (t : string) : prog (res unit) :=
     if negb owns then ok tt else
     tp <-? db_json "Get" [JStr t] ;;
     cp <-? lift (collection_prop tp) ;;
-    let tp' := match op_ids with [] => (match elems cp tp with None => jset cp (JArr []) tp | Some _ => tp end)
-                                | _ => set_elems cp (elems0 cp tp ++ map JStr op_ids) tp end in
-    db_unit "Update" [tp']).
+    db_unit "Update" [add_spec cp op_ids tp]).
 
 Definition add (a : json) : prog (res unit) :=
   op_ids <-? lift (ids_of "object" a) ;;
   target_ids <-? lift (ids_of "target" a) ;;
   foreach target_ids (add_loop op_ids).
-
-Fixpoint remove_ids (cp : string) (op_ids : list string) (l : list json) : res (list json) :=
-  match l with
-  | [] => Ok []
-  | e :: r => match to_id cp e with
-              | Ok i => if is_nil i then Panic "remove: nil id" else
-                        match remove_ids cp op_ids r with
-                        | Ok r' => Ok (if mem i op_ids then r' else e :: r')
-                        | x => x end
-              | Err x => Err x
-              | Panic s => Panic s
-              end
-  end.
 
 Definition remove_loop (op_ids : list string) (t : string) : prog (res unit) :=
   with_lock_deferred t (
@@ -318,10 +303,7 @@ Definition remove_loop (op_ids : list string) (t : string) : prog (res unit) :=
     if negb owns then ok tt else
     tp <-? db_json "Get" [JStr t] ;;
     cp <-? lift (collection_prop tp) ;;
-    tp' <-? lift (match elems cp tp with
-                  | None => Ok tp
-                  | Some l => match remove_ids cp op_ids l with Ok l' => Ok (set_elems cp l' tp) | Err x => Err x | Panic s => Panic s end
-                  end) ;;
+    tp' <-? lift (remove_spec cp op_ids tp) ;;
     db_unit "Update" [tp']).
 
 Definition remove (a : json) : prog (res unit) :=
